@@ -64,7 +64,7 @@ func isSliceType(t types.Type) bool {
 	return ok
 }
 
-func c08Bounds(p *ana.Prog, r *ana.Result, ts *ana.TaintState) {
+func c08Bounds(p *ana.Prog, r *ana.Result, ts *ana.TaintState, pset *ana.ProverSet) {
 	residual, err := ana.CompilerResidual(p.Dir)
 	if err != nil {
 		r.Broken("C08.bounds: %v", err)
@@ -77,9 +77,6 @@ func c08Bounds(p *ana.Prog, r *ana.Result, ts *ana.TaintState) {
 		f := strings.TrimPrefix(ps.Filename, p.Dir+"/")
 		return fmt.Sprintf("%s:%d:%d", f, ps.Line, ps.Column)
 	}
-	pset := ana.NewProverSet(p.AllFuncs)
-	ana.DebugStable = os.Getenv("C08_STABLE") != ""
-	pset.PhiLower = phiLowerBound
 	proverOf := pset.For
 	// obligations
 	var obls []boundObl
@@ -276,6 +273,9 @@ func liftToCallers(p *ana.Prog, ts *ana.TaintState, o boundObl, proverOf func(*s
 			for _, g := range open {
 				sub, ok := pr.ArgLin(g, callee, c.Common().Args)
 				if !ok {
+					if os.Getenv("C08_DEBUG") != "" {
+						fmt.Fprintf(os.Stderr, "LIFT-NOSUBST %s -> %s: %s\n", ana.FuncName(callee), ana.FuncName(caller), g.String())
+					}
 					return false, ""
 				}
 				if pr.ProveAt(sub, c.(ssa.Instruction)) {
@@ -285,6 +285,9 @@ func liftToCallers(p *ana.Prog, ts *ana.TaintState, o boundObl, proverOf func(*s
 				if pathGate(p, pr, sub, c.(ssa.Instruction)) {
 					how["path-gate"]++
 					continue
+				}
+				if os.Getenv("C08_DEBUG") != "" {
+					fmt.Fprintf(os.Stderr, "LIFT-FAIL %s -> %s: %s\n", ana.FuncName(callee), ana.FuncName(caller), sub.String())
 				}
 				lo := boundObl{fn: caller, in: c.(ssa.Instruction), desc: o.desc, goals: []ana.ILin{sub}}
 				if ok2, _ := liftToCallers(p, ts, lo, proverOf, depth+1); !ok2 {
